@@ -8,8 +8,9 @@
                       LRecvExit (recv returns: isClosed = 1, read error, nothing buffered),
                       LRecvClose (deferred: numInvoke = 0 seen on a 500 ms tick, conn.Close, conns.Delete),
                       LRecvGone (same for a connection the poller closed already)
-     pool dispatcher  LTake (job := <-JobQueue), LStart (worker.JobChannel <- job), LPoolStop (takes `stop`: only the
-                      unrepaired code releases the pool while connections are still draining)
+     pool dispatcher  LTake (job := <-JobQueue), LStart (worker.JobChannel <- job), LPoolStop (takes `stop`: the
+                      unrepaired code releases the pool as soon as the accept loop ended, the repaired code only
+                      after every receive loop has returned)
      handler          LStart (pool 0: the goroutine runs), LFinish (response written, numInvoke--)
      Shutdown poller  LShutdown (isClosed := 1, OnShutdown), LPollBegin (tick: close message to every connection of the
                       table when isListenClosed = 1, then := 2), LPollClose (idle connection with numInvoke = 0 closed),
@@ -19,7 +20,9 @@
                       noticed isClosed; the code wakes it with SetDeadline(now) 500 ms before the first tick)
      process          LExit (tars.Run returned after Shutdown returned; the process ends, every socket dies)
      clients          LSend
-   numInvoke of a connection is the length of the ghost list [busy]. *)
+   numInvoke of a connection is the length of the ghost list [busy]: a request is counted from the moment it is read
+   (LRead: handleConn increments before the handler is spawned or queued) until its response is written (LFinish),
+   i.e. also while it is Pending, Queued or in the dispatcher's hand. *)
 From Coq Require Import List NArith Bool Arith.
 Import ListNotations.
 
